@@ -179,9 +179,9 @@ def run_item(item):
                     exc.clause = exc.prop + ':' + exc.clause
                     exc.prop = target
                 if kind == 'ub':
-                    if item.get('ub_prop', 'C02') in accept or target in ('C12', 'C13', 'C10', 'C11', 'C16'):
+                    if item.get('ub_prop', 'C02') in accept or target in ('C12', 'C13', 'C10', 'C11', 'C16', 'C05', 'C07'):
                         kind = 'violation'
-                        exc = driver.Violation(item.get('ub_prop', 'C02') if target not in ('C12', 'C13', 'C10', 'C11', 'C16', 'C09', 'C07') else target,
+                        exc = driver.Violation(item.get('ub_prop', 'C02') if target not in ('C12', 'C13', 'C10', 'C11', 'C16', 'C09', 'C07', 'C05') else target,
                                                'memory:' + exc.kind, exc.detail, sc.model_values(None))
                         exc.stack = getattr(out[1], 'stack', [])
                     else:
